@@ -375,6 +375,7 @@ fn run_tls_full(server_tls: Option<Arc<rustls::ServerConfig>>, client_cert: bool
     let mut shim = Shim::new(None, tls_behave());
     shim.tls = server_tls;
     shim.auth_reject = AUTH_REJECT.with(|w| w.get());
+    shim.fail_after = FAIL_AFTER.with(|w| w.get());
     let r = {
         let sh = &mut shim;
         let tr = sim.clone();
@@ -808,6 +809,8 @@ thread_local! {
     static GOODBYE_AFTER: std::cell::Cell<Option<usize>> = std::cell::Cell::new(None);
     /// commands to send inside TLS instead of the fixed script (TlsWalks)
     static SCRIPT_CMDS: RefCell<Option<Vec<ClientCmd>>> = RefCell::new(None);
+    /// the k-th command callback does its work and then returns Err(marker)
+    static FAIL_AFTER: std::cell::Cell<Option<(usize, u64)>> = std::cell::Cell::new(None);
 }
 
 /// the client's stream ends (no close_notify) after k bytes of a TLS session: inside the TLS
@@ -1216,11 +1219,11 @@ impl Family for TlsRequestSizes {
 /// error replies inside a TLS session: an ERR at once, an ERR behind rows, a refused PREPARE, with
 /// messages of every length in windows (empty, short, around the TLS record size), followed by a
 /// PING; the client must decode code, SQLSTATE and message exactly as on a plaintext connection
-struct TlsErrors {
+pub struct TlsErrors {
     lens: Vec<usize>,
 }
 impl TlsErrors {
-    fn new(quick: bool) -> Self {
+    pub fn new(quick: bool) -> Self {
         let mut lens: Vec<usize> = (0..40).collect();
         lens.extend([250, 251, 252, 600, 5000]);
         for c in if quick { vec![16_384usize] } else { vec![16_384usize, 32_768, 65_536] } {
@@ -1234,11 +1237,14 @@ impl Family for TlsErrors {
         "error-replies-inside-tls".into()
     }
     fn len(&self) -> u64 {
-        self.lens.len() as u64 * 3
+        self.lens.len() as u64 * 6
     }
     fn run(&self, idx: u64, st: &mut Stats) -> Result<(), Violation> {
-        let n = self.lens[(idx / 3) as usize];
+        let n = self.lens[(idx / 6) as usize];
         let site = idx % 3;
+        // the callback that reported the error then returns Err itself: the client must still get
+        // the error, run_on returns the callback's error
+        let then_fail = idx % 6 >= 3;
         st.nontrivial += 1;
         st.bump("tls_error_replies");
         let (cmd, kind) = match site {
@@ -1247,10 +1253,12 @@ impl Family for TlsErrors {
             _ => (ClientCmd::new(with_byte(COM_STMT_PREPARE, format!("refuse={}", n).as_bytes())), msql_srv::ErrorKind::ER_PARSE_ERROR),
         };
         SCRIPT_CMDS.with(|c| *c.borrow_mut() = Some(vec![q(b"SELECT 1"), cmd, ping()]));
+        FAIL_AFTER.with(|f| f.set(if then_fail { Some((1, 777)) } else { None }));
         let o = run_tls_full(Some(pki().server_plain.clone()), false, vec![], usize::MAX, 0, false, None, 2);
+        FAIL_AFTER.with(|f| f.set(None));
         let (_, conv, last_seq) = script_with(2);
         SCRIPT_CMDS.with(|c| *c.borrow_mut() = None);
-        let what = format!("{} with a message of {} bytes inside TLS", ["an ERR at once", "an ERR behind two rows", "a refused PREPARE"][site as usize], n);
+        let what = format!("{} with a message of {} bytes inside TLS{}", ["an ERR at once", "an ERR behind two rows", "a refused PREPARE"][site as usize], n, if then_fail { ", the callback then returns Err" } else { "" });
         if let ConnResult::Panic(l, m) = &o.res {
             return Err(Violation::new(panic_key(l, m), format!("{}: run_on panicked at {}: {}", what, l, m)));
         }
@@ -1262,12 +1270,16 @@ impl Family for TlsErrors {
         }
         let g = o.st.greeting_len.unwrap_or(0);
         only_tls_records(&o.st.from_server[g..]).map_err(|e| Violation::new("plaintext-after-switch", format!("{}: {}", what, e)))?;
-        if !o.res.is_ok() {
+        if then_fail {
+            if o.res != ConnResult::ErrMarker(777) {
+                return Err(Violation::new("late-shim-error-not-returned", format!("{}: run_on returned {}", what, o.res.short())));
+            }
+        } else if !o.res.is_ok() {
             return Err(Violation::new("result-not-ok", format!("{}: run_on returned {}", what, o.res.short())));
         }
         let mut all = o.st.from_server[..g].to_vec();
         all.extend_from_slice(&o.st.decrypted);
-        let d = decode_all(&all, &conv, &last_seq, 4, false).map_err(|e| Violation::new("decrypted-replies", format!("{}: {}", what, e)))?;
+        let d = decode_all(&all, &conv, &last_seq, if then_fail { 2 } else { 4 }, false).map_err(|e| Violation::new(if then_fail { "reported-error-did-not-arrive" } else { "decrypted-replies" }, format!("{}: {}", what, e)))?;
         let e = match d.replies[1].last() {
             Some(Unit::Err(e)) => e.clone(),
             Some(Unit::ResultSet { rows, end: Err(e), .. }) if rows.len() == 2 => e.clone(),
@@ -1280,7 +1292,7 @@ impl Family for TlsErrors {
     }
     fn describe(&self, idx: u64) -> J {
         let site = ["query refused", "error behind rows", "prepare refused"][(idx % 3) as usize];
-        json!({"message_bytes": self.lens[(idx / 3) as usize], "site": site})
+        json!({"message_bytes": self.lens[(idx / 6) as usize], "site": site, "callback_then_returns_err": idx % 6 >= 3})
     }
 }
 
